@@ -1,93 +1,21 @@
 /-
-  The cached evaluator `Eval.evalNode` (duplicate counters, cache with renaming, foreign-restriction flag,
-  free_var_domains, pattern shortcuts, empty-domain shortcut) returns — for EVERY state of the cache that
-  satisfies the invariant `CacheOK`, hence for every evaluation history — a set that is semantically exact,
-  and re-establishes the invariant.
-
-  Two facts about canonical keys are HYPOTHESES of the theorem (`KeySem`, `KeyWild`): that equal keys imply
-  that the cached set, renamed back, denotes the other sub-formula.  They are the semantic content of C09
-  and are checked by the correspondences K5/K6/K7, not proved here.
+  The cached evaluator `Eval.evalNode`: lookup and store phases (see CacheDefs.lean for the invariant).
 -/
-import HctlProofs.Lemmas.CacheBasics
-import HctlProofs.Props.C12
-import HctlProofs.Props.C07
-import HctlProofs.Lemmas.CanonRender
+import HctlProofs.Lemmas.CacheDefs
+import HctlProofs.Lemmas.SingleName
 namespace Hctl
 open Kripke
 
-/-- every wild-card proposition of the formula has a context set -/
-def WildsIn (K : SemCtx) : Tree → Prop
-  | .atom (.wild w) => ∃ a, K.wild w = some a
-  | .atom _ => True
-  | .un _ c => WildsIn K c
-  | .bin _ l r => WildsIn K l ∧ WildsIn K r
-  | .hyb _ _ _ c => WildsIn K c
-
-/-- the unit set is the top-level unit restricted by the domains of the open quantifiers -/
-def UnitDesc (E : Env) (K : SemCtx) (U0 U : CSet) (ds : List (Option Name)) : Prop :=
-  ∀ p ∈ E.pts, (U p = true ↔ (U0 p = true ∧
-    ∀ i l a, ds[i]? = some (some l) → K.dom l = some a → a (p.setS (p.getV i)) = true))
-
-/-- a legitimate call of `eval_node`: preprocessed sub-formula `t` at quantifier depth `ds.length`, in the
-unit set `U` described by the open domains `ds` -/
-structure GoodQ (C : CharClass) (E : Env) (K : SemCtx) (U0 : CSet) (t : Tree) (U : CSet) (ds : List (Option Name)) : Prop where
-  wscoped : WellScoped E.G.k ds.length t
-  named : DepthNamed ds.length t
-  dk : ds.length ≤ E.G.k
-  domsIn : DomsIn K t
-  domsDs : ∀ (i : Nat) l, ds[i]? = some (some l) → ∃ a, K.dom l = some a
-  wildsIn : WildsIn K t
-  labelled : C07.PropsOK (fun n => (E.G.label n).isSome) t
-  unit : UnitOK E U0 (Ops.steadyOf E U0) U ds.length
-  desc : UnitDesc E K U0 U ds
-  valid : Lex.TreeOK C t ∧ PropNamesOK t
-
-/-- no quantifier with a restricted domain is open whose variable does not occur in the sub-formula -/
-def NoForeign (ren : List (Name × Name)) (ds : List (Option Name)) : Prop :=
-  ∀ i l, ds[i]? = some (some l) → (ren.lookup (xs (i + 1))).isSome = true
-
-/-- key of a wild-card proposition -/
-def wkey (w : Name) : Key := ('%' :: w ++ ['%'], [])
-
-/-- HYPOTHESIS (semantic key soundness, the content of C09): if two legitimate sub-formula occurrences have the
-same key (canonical text + canonical domains), at most one variable, and the first was evaluated without
-foreign restriction, then renaming the first one's set back along the renamings and intersecting with the
-second one's unit yields exactly the second one's satisfaction set — and the renaming does not fault. -/
-def KeySem (C : CharClass) (E : Env) (K : SemCtx) (U0 : CSet) : Prop :=
-  ∀ t1 U1 ds1 t2 U2 ds2 key ren1 ren2 R,
-    GoodQ C E K U0 t1 U1 ds1 → GoodQ C E K U0 t2 U2 ds2 →
-    keyOf t1 (fvdOf ds1) = (key, ren1) → keyOf t2 (fvdOf ds2) = (key, ren2) →
-    ren1.length ≤ 1 → ren2.length ≤ 1 → NoForeign ren1 ds1 → t1.isWild = false →
-    Sem E R U1 (sat E.G K t1) →
-    ∃ r', Eval.renameBack E U2 ren2 (sortRen ren1) R = .ok r' ∧ Sem E (r'.inter U2) U2 (sat E.G K t2)
-
-/-- HYPOTHESIS (keys of wild-card propositions): the key of `%w%` is `("%w%", ∅)`, and only `%w%` has it -/
-structure KeyWild (C : CharClass) (E : Env) (K : SemCtx) (U0 : CSet) : Prop where
-  wild_key : ∀ w ds, Lex.ValidId C w → keyOf (.atom (.wild w)) (fvdOf ds) = (wkey w, [])
-  key_wild : ∀ t U ds w ren, GoodQ C E K U0 t U ds → keyOf t (fvdOf ds) = (wkey w, ren) → t = .atom (.wild w)
-
-/-- the invariant of the evaluation context -/
-structure CacheOK (C : CharClass) (E : Env) (K : SemCtx) (U0 : CSet) (ctx : ECtx) : Prop where
-  entries : ∀ key R rren, cacheGet key ctx.cache = some (R, rren) →
-    (∃ w a, key = wkey w ∧ K.wild w = some a ∧ R = a ∧ rren = []) ∨
-    (∃ t1 U1 ds1, GoodQ C E K U0 t1 U1 ds1 ∧ keyOf t1 (fvdOf ds1) = (key, rren) ∧ rren.length ≤ 1 ∧
-      NoForeign rren ds1 ∧ t1.isWild = false ∧ Sem E R U1 (sat E.G K t1))
-  wilds : ∀ w a, K.wild w = some a →
-    cacheGet (wkey w) ctx.cache = some (a, []) ∧ (dupGet (wkey w) ctx.dups).isSome = true
-  domRaw : ∀ l a, K.dom l = some a → ctx.domRaw.lookup l = some a
-  dupsOK : ∀ key n, dupGet key ctx.dups = some n → ∀ t U ds ren, GoodQ C E K U0 t U ds →
-    keyOf t (fvdOf ds) = (key, ren) → ren.length ≤ 1
-
 section
-variable {C : CharClass} {E : Env} (hE : EnvOK E) (hG : GraphWF E.G) {K : SemCtx} (hK : CtxOK E K) {U0 : CSet}
+variable {C : CharClass} (hC : Lex.CharsOK C) {E : Env} (hE : EnvOK E) (hG : GraphWF E.G) {K : SemCtx} (hK : CtxOK E K) {U0 : CSet}
   (hKS : KeySem C E K U0) (hKW : KeyWild C E K U0)
-include hE hG hK hKS hKW
+include hC hE hG hK hKS hKW
 
-omit hE hG hK hKS hKW in
+omit hC hE hG hK hKS hKW in
 theorem Sem.eqOn {a b U : CSet} {φ : Point → Prop} (ha : Sem E a U φ) (hb : Sem E b U φ) : EqOn E.pts a b :=
   fun p hp => Bool.eq_iff_iff.mpr ((ha p hp).trans (hb p hp).symm)
 
-omit hE hG hK hKS hKW in
+omit hC hE hG hK hKS hKW in
 theorem sem_inter_unit {a U : CSet} {φ : Point → Prop} (ha : Sem E a U φ) : Sem E (a.inter U) U φ := by
   intro p hp
   simp only [CSet.inter, Bool.and_eq_true]
@@ -190,7 +118,7 @@ theorem lookup_spec {t : Tree} {U : CSet} {ds : List (Option Name)} {ctx : ECtx}
           | _ => simp [Tree.isWild] at hw
       refine ⟨_, key, ren, rfl, hkey, hnw, ?_⟩
       intro hsave
-      refine ⟨hc.dupsOK key n hd t U ds ren hq hkey, ?_⟩
+      refine ⟨dups_le_one hC (hc.dupsOK key n hd) hq hkey, ?_⟩
       -- the flag `foreign` is false
       intro i l hil
       have hmem : (xs (i + 1), some l) ∈ fvdOf ds := (fvdOf_get ds i (some l)).mpr hil
@@ -220,11 +148,11 @@ theorem lookup_spec {t : Tree} {U : CSet} {ds : List (Option Name)} {ctx : ECtx}
         · refine ⟨hc.entries, ?_, hc.domRaw, ?_⟩
           · intro w' a' hw'
             exact ⟨(hc.wilds w' a' hw').1, dupGet_set_isSome _ _ _ _ (hc.wilds w' a' hw').2⟩
-          · intro k' n' hk' t' U' ds' ren' hq' hkey'
+          · intro k' n' hk'
             by_cases hkk : k' = key
-            · subst hkk; exact hc.dupsOK k' n hd t' U' ds' ren' hq' hkey'
+            · subst hkk; exact hc.dupsOK k' n hd
             · rw [dupGet_set_ne k' key _ _ hkk] at hk'
-              exact hc.dupsOK k' n' hk' t' U' ds' ren' hq' hkey'
+              exact hc.dupsOK k' n' hk'
       · -- an ordinary entry: key soundness
         have hnw : t.isWild = false := by
           cases hw : t.isWild with
@@ -243,7 +171,7 @@ theorem lookup_spec {t : Tree} {U : CSet} {ds : List (Option Name)} {ctx : ECtx}
                 simp [Tree.isWild] at hnw1
               | _ => simp [Tree.isWild] at hw
             | _ => simp [Tree.isWild] at hw
-        obtain ⟨r', hrb, hsem⟩ := hKS t1 U1 ds1 t U ds key rren ren R hq1 hq hk1 hkey hlen1 (hc.dupsOK key n hd t U ds ren hq hkey) hnf1 hnw1 hs1
+        obtain ⟨r', hrb, hsem⟩ := hKS t1 U1 ds1 t U ds key rren ren R hq1 hq hk1 hkey hlen1 (dups_le_one hC (hc.dupsOK key n hd) hq hkey) hnf1 hnw1 hs1
         rw [hrb]
         simp only [hnw, Bool.not_false, Bool.true_and]
         refine ⟨_, _, rfl, Sem.tab hE hsem, ?_, ?_⟩
@@ -261,34 +189,34 @@ theorem lookup_spec {t : Tree} {U : CSet} {ds : List (Option Name)} {ctx : ECtx}
             · intro w a hw
               rw [cacheGet_remove_ne _ _ _ (hwne w), dupGet_remove_ne _ _ _ (hwne w)]
               exact ⟨(hc.wilds w a hw).1, dupGet_set_isSome _ _ _ _ (hc.wilds w a hw).2⟩
-            · intro k' n' hk' t' U' ds' ren' hq' hkey'
+            · intro k' n' hk'
               have := dupGet_remove_sub k' key _ n' hk'
               by_cases hkk : k' = key
-              · subst hkk; exact hc.dupsOK k' n hd t' U' ds' ren' hq' hkey'
+              · subst hkk; exact hc.dupsOK k' n hd
               · rw [dupGet_set_ne k' key _ _ hkk] at this
-                exact hc.dupsOK k' n' this t' U' ds' ren' hq' hkey'
+                exact hc.dupsOK k' n' this
           · refine ⟨hc.entries, ?_, hc.domRaw, ?_⟩
             · intro w a hw
               exact ⟨(hc.wilds w a hw).1, dupGet_set_isSome _ _ _ _ (hc.wilds w a hw).2⟩
-            · intro k' n' hk' t' U' ds' ren' hq' hkey'
+            · intro k' n' hk'
               by_cases hkk : k' = key
-              · subst hkk; exact hc.dupsOK k' n hd t' U' ds' ren' hq' hkey'
+              · subst hkk; exact hc.dupsOK k' n hd
               · rw [dupGet_set_ne k' key _ _ hkk] at hk'
-                exact hc.dupsOK k' n' hk' t' U' ds' ren' hq' hkey'
+                exact hc.dupsOK k' n' hk'
         · split <;> rfl
 
 
 /-! ### the main induction -/
 
-omit hE hG hK hKS hKW in
+omit hC hE hG hK hKS hKW in
 theorem CacheOK.fvd_irrel {ctx : ECtx} (f : DomMap) (h : CacheOK C E K U0 ctx) : CacheOK C E K U0 { ctx with fvd := f } :=
   ⟨h.entries, h.wilds, h.domRaw, h.dupsOK⟩
 
-omit hE hG hK hKS hKW in
+omit hC hE hG hK hKS hKW in
 theorem getElem?_snoc_lt {α} (l : List α) (a : α) (i : Nat) (h : i < l.length) : (l ++ [a])[i]? = l[i]? := by
   rw [List.getElem?_append_left h]
 
-omit hE hG hK hKS hKW in
+omit hC hE hG hK hKS hKW in
 theorem unitDesc_snoc_none {U : CSet} {ds : List (Option Name)} (h : UnitDesc E K U0 U ds) :
     UnitDesc E K U0 U (ds ++ [none]) := by
   intro p hp
@@ -309,7 +237,7 @@ theorem unitDesc_snoc_none {U : CSet} {ds : List (Option Name)} (h : UnitDesc E 
       rw [List.getElem?_eq_none (by omega)] at hil; cases hil
     exact hh i l a (by rw [getElem?_snoc_lt ds none i hi]; exact hil) hl
 
-omit hG hK hKS hKW in
+omit hC hG hK hKS hKW in
 theorem unitDesc_snoc_some {U U' dsl : CSet} {ds : List (Option Name)} {l : Name} (hl : K.dom l = some dsl)
     (h : UnitDesc E K U0 U ds)
     (hmem : ∀ q ∈ E.pts, (U' q = true ↔ (U q = true ∧ dsl (q.setS (q.getV ds.length)) = true))) :
